@@ -303,7 +303,23 @@ func c02Run() {
 						var cbIn, cbOut int64
 						var val Val
 						called, known := false, true
-						err := bigbuff.Range(r.stop, sk.c, func(_ int, x interface{}) bool {
+						// sometimes with a context of its own, cancelled after a while: a Range whose Get
+						// fails in the middle of the history. Range works through the Consumer it is given:
+						// a wrapper notes whether it got as far as Get, and the Rollback it made.
+						rctx, cancelled := context.Context(r.stop), false
+						spy := &c02Spy{Consumer: sk.c}
+						if simrt.Chance(1, 3) {
+							var rcancel context.CancelFunc
+							rctx, rcancel = context.WithCancel(r.stop)
+							d := simrt.DrawRange(0, 12)
+							go func() {
+								time.Sleep(time.Duration(d) * r.unit)
+								cancelled = true
+								simrt.Fault("ctx_cancel")
+								rcancel()
+							}()
+						}
+						err := bigbuff.Range(rctx, spy, func(_ int, x interface{}) bool {
 							cbIn = simrt.Stamp()
 							called = true
 							val, known = asVal(x)
@@ -314,6 +330,24 @@ func c02Run() {
 						if !known {
 							simrt.Failf("C02.invented-value", "Range on the shared consumer delivered a value nobody put")
 							return
+						}
+						if !called && cancelled && r.stopInv == 0 {
+							// cancelled in the middle of the history
+							if err != context.Canceled {
+								simrt.Failf("C02.get-error", "shared consumer: Range whose context was cancelled returned %v", err)
+								return
+							}
+							if !spy.getCalled {
+								continue // stopped at its context check: nothing touched
+							}
+							simrt.Probe("range_get_failed_mid_history")
+							if !spy.rbCalled {
+								simrt.Failf("C02.range-no-rollback", "shared consumer: the Get of a package Range failed (its context was cancelled while it waited) and Range returned without a Rollback: when Get fails, what is in flight on that consumer is rolled back and is what the next read returns")
+								return
+							}
+							sharedOps = append(sharedOps, oracle.Op{Client: ti, In: "get", Out: c02Out{ok: false}, Call: start, Return: spy.rbInv})
+							sharedOps = append(sharedOps, oracle.Op{Client: ti, In: "rollback", Out: c02Out{ok: spy.rbErr == nil}, Call: spy.rbInv, Return: spy.rbRet})
+							continue
 						}
 						if !called {
 							if r.stopInv == 0 {
@@ -664,4 +698,26 @@ func c02Post(data any) (string, string, bool) {
 		}
 	}
 	return "", "", false
+}
+
+// c02Spy is a Consumer that passes everything on and notes what package Range did with it.
+type c02Spy struct {
+	bigbuff.Consumer
+	getCalled    bool
+	rbCalled     bool
+	rbInv, rbRet int64
+	rbErr        error
+}
+
+func (s *c02Spy) Get(ctx context.Context) (interface{}, error) {
+	s.getCalled = true
+	return s.Consumer.Get(ctx)
+}
+
+func (s *c02Spy) Rollback() error {
+	s.rbCalled = true
+	s.rbInv = simrt.Stamp()
+	s.rbErr = s.Consumer.Rollback()
+	s.rbRet = simrt.Stamp()
+	return s.rbErr
 }
